@@ -20,7 +20,10 @@ claim('C10',
       'DESIGN.md 4 (S), 5 C10')
 claim('C11',
       'Decides totality of the marginalisation primitive over every number of unmeasured qubit groups (N1: no '
-      'norm(axis=<data-length tuple>)), and seed threading Circuit.measure -> MeasureGate -> measure_quantum_vector (S). '
+      'norm(axis=<data-length tuple>)); seed threading Circuit.measure -> MeasureGate -> measure_quantum_vector (S); MeasureGate.forward '
+      'takes bitstr / probability / collapsed state from one call with its own index and generator (D4); index shifting updates the '
+      'gate object too (D3); the returned bit string is the big-endian expansion matching the C-order flattening (M1); a computed axis '
+      'permutation is not undone by re-applying it (M2). '
       'Born marginals, renormalisation and repeatability are value-level and NOT decided.',
       'Trusted: NumPy API contract for linalg.norm(axis=); ast name resolution.',
       'ast def-use chase of axis arguments through tuple-returning callees; must-taint seed dataflow',
@@ -114,8 +117,11 @@ claim('C03',
       'Decides the vocabulary-and-dispatch clauses of the state-vector simulator: every named gate of Circuit binds the operator '
       'its name denotes with the right arity (D2, by literal folding of the numqi.gate constants against canonical matrices); '
       'Circuit.apply_state and the autograd forward loop dispatch every canonical kind to the same primitive with the same '
-      'operand roles, in storage order (D1); to_unitary transposes its row-filled matrix (U1). The core index relabelling of '
-      'apply_gate/apply_control_n_gate (computed einsum lists) is value-level and NOT decided.',
+      'operand roles, in storage order (D1); to_unitary transposes its row-filled matrix (U1); the computed einsum leg lists of '
+      'state.apply_gate, dm.apply_gate (both sides, conjugated operator on the right) and dm.operator_expectation follow the '
+      'relabelling idiom with operator legs ordered (fresh/output, chosen/input) - op, not op^T, is applied (R1, symbolic typing of '
+      'the list-building idioms); shift_qubit_index_ covers every kind (D3); no cached function hands out a shared Circuit (O2). '
+      'The control-subspace slicing (reduce_shape_index arithmetic) and marginal probabilities are value-level and NOT decided.',
       'Trusted: canonical gate matrices in sa/gateval.py; the role patterns of D1. kraus gates have no dispatch arm by the '
       "source's own TODO and are excluded.",
       'ast registry extraction + literal constant folding of gate matrices; sibling dispatch-arm comparison',
@@ -125,8 +131,9 @@ claim('C04',
       'conjugated state and op.T.conj() on the cotangent with the forward indices, sibling agreement of the two *_grad helpers, '
       'Knill-Laflamme adjoint sweep over the reversed sequence and forward twins alpha-equivalent (A2); += accumulation for shared '
       'slots (A3); backward return arity / save-restore arity for all 5 autograd.Function classes (A4); once_differentiable where '
-      'backward leaves torch (A5); backward dispatches to the *_grad twin of the forward primitive (D1). That the accumulated '
-      'numbers equal the derivative is value-level and NOT decided.',
+      'backward leaves torch (A5); backward dispatches to the *_grad twin of the forward primitive (D1); the operator-gradient contraction returns legs '
+      '(chosen, fresh) = d/d op[row, col] (R1); parametrised gate matrices agree across backends (B1). That the accumulated '
+      'numbers equal the derivative (Sylvester backward, Pade logm) is value-level and NOT decided.',
       'Trusted: the adjoint rule templates; torch.autograd.Function API contract.',
       'ast sibling/twin comparison and operator-form classification (id / T / H) at resolved call sites',
       'DESIGN.md 4 (A, D), 5 C04')
